@@ -40,6 +40,23 @@ CLAIMS = {
              'all strings up to length 8 over {a, CR, LF}); preprocessors are not modelled; the line-filter literals are tied '
              'to the source by theorem C06_literals_tied over the regenerated Gen/GenConst.v.',
         design='DESIGN.md section 7, C06'),
+    'C19': dict(
+        technique='Coq proof of the filter-chain logic over a hand-written Gallina model of filter.py (generators as values, '
+                  'distance function abstract) against an independent conjunction-filter specification + differential check on '
+                  'really decoded messages + high-precision numeric test of haversine',
+        text='C19_partial / C19_chain_is_filter / C19_chain_perm / C19_no_raise / C19_geo_pass_without_position / '
+             'C19_distance_strict / C19_grid_closed / C19_lazy_semantics are proved for all message lists, all chains and every '
+             'distance function (a Section variable, not an axiom): the chain yields exactly the order-preserving subsequence '
+             'of messages satisfying every criterion, independent of filter order; the built-in filters never raise on any '
+             'decoded message shape (coordinates None included); dist < d is strict, the grid is closed, messages without '
+             'position pass. PARTIAL: that haversine (libm sin/cos/asin/sqrt in binary64) is the great-circle distance and never '
+             'raises is tested on every run against a 60-digit reference (1e-6 km; 1e-3 km within 1 km of the antipode or for '
+             'latitudes outside [-90, 90]), not proved -- no bit-exact libm model exists here. ' + TIE,
+        note=BASE_NOTE + 'is_in_grid and the filter predicates are modelled by hand (Model/Filter.v) and tied by the '
+             'correspondence check at every grid edge and at distances exactly equal to the threshold; filter objects are '
+             'assumed to belong to one chain (FilterChain links them by mutation); user predicates of AttributeFilter are '
+             'arbitrary functions in the model.',
+        design='DESIGN.md section 7, C19'),
 }
 
 PENDING = 'check not yet built in this snapshot (work in progress; see DESIGN.md section 12 for the status)'
